@@ -5,6 +5,8 @@ run_histories: one pool (dict OutputPool or on-disk ArrayPool under /var/tmp) go
   RM_P      remove the stores of all parameters           RM_D   remove the store of the most downstream stored node
   RP_S2 / RP_d  replace the summary S2 / the distance d by a different function (the stores of the replaced node and of its
             descendants are removed first: a pool keyed by node name cannot notice a changed function)
+  AT        attach an inference object without consuming a batch (gives a fresh pool its context; the pool may still be EMPTY afterwards)
+  CL        pool.clear()  (context kept, no batch held)
   RO        ArrayPool only: close() -> ArrayPool.open(name, prefix)
 over the model  t1, t2 (priors) -> y (simulator, stochastic) -> S1, S2 -> d,  for store sets "of the stated form"
 (non-empty subset of {y, S1, S2, d}, optionally together with {t1, t2}); requested user outputs alternate between (y, S1, S2) and none.  Every user operation records (node, batch_index)
@@ -12,7 +14,8 @@ of each invocation (through elfi's `meta` argument) and its output.  Oracle (fro
   (a) Sample outputs / n_sim / n_batches / threshold are exactly those of the pool-free run with the same seed on the same model,
   (b) no operation of a stored node was invoked for a batch the pool held for it before the run; nothing is invoked twice per batch,
   (c) for every stored node the index set is (what was there before) | [0, consumed) with the values the pool-free run computed,
-  (d) before every run a different batch_size and a different seed are refused with ValueError, the same / omitted ones accepted.
+  (d) before every run / attachment to a pool that has a context (empty or not) a different batch_size and a different seed (also the
+      falsy seeds 0 and np.uint32(0)) are refused with ValueError and the pool context is unchanged; the same / omitted ones are accepted.
 run_api: every sequence of <= 3 OutputPool API calls (add_batch / remove_batch / add_store / remove_store / clear / get_batch /
   len / in) over two nodes and batch indices 0..2 against an independent dict-of-dicts view."""
 import itertools
@@ -146,6 +149,22 @@ def held(pool):
 
 
 # ---------------------------------------------------------------------------------------------- one history
+def refusals(elfi, pool, m, b, seed, outputs, where):
+    """(d): a pool that has a context - whether or not it holds a batch yet - refuses every other batch_size / seed (also the falsy seed 0)"""
+    if not pool.has_context:
+        return None
+    for kw, nm in ((dict(batch_size=b + 1), 'batch_size'), (dict(batch_size=b, seed=seed + 1), 'seed'),
+                   (dict(batch_size=b, seed=0), 'seed (explicit 0)'), (dict(batch_size=b, seed=np.uint32(0)), 'seed (explicit uint32 0)')):
+        try:
+            elfi.Rejection(m['d'], output_names=list(outputs), pool=pool, **kw)
+            return dict(what='%s: a different %s than the pool was created with is accepted (pool holds %d batches)' % (where, nm, len(pool)), signature='c05:context-not-refused')
+        except ValueError:
+            pass
+    if pool.batch_size != b or pool.seed != seed:
+        return dict(what='%s: the pool context changed to batch_size=%r seed=%r' % (where, pool.batch_size, pool.seed), signature='c05:context-changed')
+    return None
+
+
 def run_history(elfi, kind, stores, hist, b, seed, tmp, outputs=OUTPUTS):
     """-> None or dict(what, signature)"""
     variant = (0, 0)
@@ -163,13 +182,9 @@ def run_history(elfi, kind, stores, hist, b, seed, tmp, outputs=OUTPUTS):
                 before = held(pool)
                 rec = Rec()
                 m = build(elfi, variant, rec)
-                if pool.has_context:
-                    for kw, nm in ((dict(batch_size=b + 1), 'batch_size'), (dict(batch_size=b, seed=seed + 1), 'seed')):
-                        try:
-                            elfi.Rejection(m['d'], output_names=list(outputs), pool=pool, **kw)
-                            return dict(what='%s: a different %s than the pool was created with is accepted' % (where, nm), signature='c05:context-not-refused')
-                        except ValueError:
-                            pass
+                f = refusals(elfi, pool, m, b, seed, outputs, where)
+                if f:
+                    return f
                 kw = dict(batch_size=b)
                 if not pool.has_context or n_run % 2 == 0:
                     kw['seed'] = seed
@@ -200,6 +215,15 @@ def run_history(elfi, kind, stores, hist, b, seed, tmp, outputs=OUTPUTS):
                         if (n, i) in ref_rec.vals and not np.array_equal(np.asarray(pool.stores[n][i]).reshape(-1), ref_rec.vals[(n, i)].reshape(-1)):
                             return dict(what='%s: store %s batch %d holds a value a fresh computation does not produce%s' % (where, n, i, tag),
                                         signature='c05:params-stored-sim-reexecuted' if tag else 'c05:pool-value')
+            elif op == 'AT':
+                # attach an inference object without consuming a batch (the first attachment gives the pool its context)
+                m = build(elfi, variant, Rec())
+                f = refusals(elfi, pool, m, b, seed, outputs, where)
+                if f:
+                    return f
+                elfi.Rejection(m['d'], output_names=list(outputs), pool=pool, batch_size=b, **({} if pool.has_context else dict(seed=seed)))
+            elif op == 'CL':
+                pool.clear()
             elif op == 'RM_P':
                 for p in PARAMS:
                     if p in pool.stores:
@@ -239,7 +263,7 @@ def _drop(pool, n):
 
 _pool_ids = itertools.count()
 
-OPS_DICT = ('R2', 'R3', 'RM_P', 'RM_D', 'RP_S2', 'RP_d')
+OPS_DICT = ('R2', 'R3', 'AT', 'CL', 'RM_P', 'RM_D', 'RP_S2', 'RP_d')
 OPS_ARRAY = OPS_DICT + ('RO',)
 
 
@@ -247,7 +271,7 @@ def histories(kind, L):
     ops = OPS_DICT if kind == 'dict' else OPS_ARRAY
     for ln in range(1, L + 1):
         for h in itertools.product(ops, repeat=ln):
-            if h[0] in ('R2', 'R3') and h[-1] in ('R2', 'R3'):
+            if h[0] in ('R2', 'R3', 'AT') and h[-1] in ('R2', 'R3', 'AT'):
                 yield h
 
 
@@ -269,10 +293,10 @@ def run_histories(tier='quick', seed=0, stop_first=True, only_admissible=None):
                 if tier == 'quick':
                     if kind == 'array' and si % 5 != seed % 5:
                         continue
-                    hs = (short if kind == 'dict' else rnd.sample(short, 12)) + rnd.sample(long_, 10 if kind == 'dict' else 6)
+                    hs = (short if (kind == 'dict' and si % 3 == seed % 3) else rnd.sample(short, 20 if kind == 'dict' else 12)) + rnd.sample(long_, 8 if kind == 'dict' else 6)
                     bs = (2,)
                 else:
-                    hs = short + (long_ if kind == 'dict' else rnd.sample(long_, 120))
+                    hs = short + rnd.sample(long_, 200 if kind == 'dict' else 120)
                     bs = (1, 3) if kind == 'dict' else (2,)
                 for b in bs:
                     for h in hs:
@@ -298,7 +322,7 @@ def run_histories(tier='quick', seed=0, stop_first=True, only_admissible=None):
                     break
     finally:
         shutil.rmtree(tmp, ignore_errors=True)
-    return dict(name='pool-histories', bound='histories <= 4 ops over %s (quick: all of length <= 3 for dict pools + a seeded sample of length 4 / of array-pool histories); '
+    return dict(name='pool-histories', bound='histories <= 4 ops over %s (quick: all of length <= 3 for every third store set of dict pools + seeded samples of the others, of length 4 and of array-pool histories); '
                 '30 store sets of the stated form; 2-3 batches; batch_size %s' % ('/'.join(OPS_ARRAY), '2' if tier == 'quick' else '1,3 (array: 2)'),
                 rule='non-trivial = history with at least one operation after the fill', cases=cases, nontrivial=nontrivial, failures=failures)
 
